@@ -40,9 +40,9 @@ fn find<const L: usize, const N: usize>() {
         None => assert!(exp.is_none()),
     }
     kani::cover!(exp.is_none(), "not found");
-    kani::cover!(L >= N && exp == Some(0), "found at start");
-    kani::cover!(L > N && exp == Some(L - N), "found at end");
-    kani::cover!(!is_utf8(&h), "non-utf8 haystack");
+    kani::cover!(L < N || exp == Some(0), "found at start (L >= N)");
+    kani::cover!(L <= N || exp == Some(L - N), "found at end (L > N)");
+    kani::cover!(L == 0 || !is_utf8(&h), "non-utf8 haystack");
 }
 
 /// `split` piece by piece against the oracle's cut points.
